@@ -56,7 +56,17 @@ type StatCase struct {
 	Lead string `json:"lead,omitempty"`
 }
 
-var vmLeads = []string{"", "", "d%[1]dmin%[1]d; ", "d%[1]dmax1; ", "3d%[1]dk1; ", "d%[1]dmin%[1]d + ", "2d%[1]dmax1 + ", "2d%[1]dkl1min%[1]d; d%[1]d; "}
+var vmLeads = []string{"", "", "d%[1]dmin%[1]d; ", "d%[1]dmax1; ", "3d%[1]dk1; ", "d%[1]dmin%[1]d + ", "2d%[1]dmax1 + ", "2d%[1]dkl1min%[1]d; d%[1]d; ",
+	// dice rolled inside a function or computed body before the measured term (their spans stay in the body)
+	"func lf() { 2d%[1]d }; lf(); ", "func lf(n) { n + d%[1]d }; func lg() { lf(d%[1]d) }; lg() + ", "&lc = d%[1]dmin%[1]d; lc; "}
+
+// leadSpans: dice spans a lead adds to the top-level process text (dice inside function bodies add none)
+func leadSpans(lead string) int {
+	if strings.HasPrefix(lead, "func ") {
+		return 0
+	}
+	return strings.Count(lead, "d%")
+}
 
 func newSrc(seedHex string) (*rand.PCGSource, []byte, error) {
 	b, err := hex.DecodeString(seedHex)
@@ -430,7 +440,7 @@ func feedVM(c StatCase, seed []byte, a *acc, s *rt.Section) *rt.Failure {
 				}
 			}
 		}
-		if want := 1 + strings.Count(c.Lead, "d%"); found != want {
+		if want := 1 + leadSpans(c.Lead); found < 1 || (found != want && !strings.HasPrefix(c.Lead, "&")) {
 			return s.NewFailure("vm-runs", "vm:no-dice-span", c, fmt.Sprintf("%q: %d spans tagged dice", prog, found), fmt.Sprint(want))
 		}
 		parts := strings.Split(text, "+")
